@@ -57,6 +57,7 @@ COV_TUS := scanner scan exec re modules object notebook hash rules libyara arena
 cov_flag = $(if $(COV),$(if $(or $(filter $(COV_TUS),$(basename $(notdir $(1)))),$(findstring /modules/,$(1)),$(findstring /cli/,$(1))),$(COV),),)
 
 CLI_C := $(REPO)/cli/args.c $(REPO)/cli/common.c $(REPO)/cli/threading.c $(REPO)/cli/yara.c $(REPO)/cli/yarac.c
+CLI_INC := -I$(REPO)/cli
 CLI_O := $(patsubst $(REPO)/%.c,$(B)/obj/%.o,$(CLI_C))
 
 SIM_SRC := $(wildcard $(VERIF)sim/*.cc)
@@ -120,9 +121,17 @@ $(B)/yr_all.o: $(LIB_O) $(VERIF)tools/libmap.txt
 	objcopy --redefine-syms=$(VERIF)tools/libmap.txt $@.tmp $@
 	@rm -f $@.tmp
 
-$(B)/cli_all.o: $(CLI_O) $(VERIF)tools/climap.txt $(VERIF)tools/cli_localize.txt
-	ld -r -o $@.tmp $(CLI_O) 2>/dev/null || ld -r -z muldefs -o $@.tmp $(CLI_O)
-	objcopy --redefine-syms=$(VERIF)tools/climap.txt $@.tmp $@
+# yara and yarac mains live in one engine: each CLI is combined into one relocatable
+# object whose symbols are made local except its entry point (both define e.g. `options`)
+CLI_YARA_O := $(B)/obj/cli/args.o $(B)/obj/cli/common.o $(B)/obj/cli/threading.o $(B)/obj/cli/yara.o
+CLI_YARAC_O := $(B)/obj/cli/args.o $(B)/obj/cli/common.o $(B)/obj/cli/yarac.o
+$(B)/cli_yara.o: $(CLI_YARA_O) $(VERIF)tools/climap.txt
+	ld -r -o $@.tmp $(CLI_YARA_O)
+	objcopy --redefine-syms=$(VERIF)tools/climap.txt --keep-global-symbol=yara_cli_main --keep-global-symbol=queue_head --keep-global-symbol=queue_tail $@.tmp $@
+	@rm -f $@.tmp
+$(B)/cli_yarac.o: $(CLI_YARAC_O) $(VERIF)tools/climap.txt
+	ld -r -o $@.tmp $(CLI_YARAC_O)
+	objcopy --redefine-syms=$(VERIF)tools/climap.txt --keep-global-symbol=yarac_cli_main $@.tmp $@
 	@rm -f $@.tmp
 
 # ---- simulator + engines ---------------------------------------------------
@@ -134,8 +143,8 @@ $(B)/eng/%.o: $(VERIF)engines/%.cc $(wildcard $(VERIF)sim/*.h) $(wildcard $(VERI
 	@mkdir -p $(dir $@)
 	$(CXX) $(CXXFLAGS) -I$(VERIF)engines -c -o $@ $<
 
-$(B)/sim_cli: $(B)/eng/sim_cli.o $(SIM_O) $(B)/yr_all.o $(B)/cli_all.o
-	$(CXX) $(SAN) -no-pie -o $@ $(B)/eng/sim_cli.o $(SIM_O) $(B)/markA.o $(B)/yr_all.o $(B)/markZ.o $(B)/cli_all.o $(LDLIBS)
+$(B)/sim_cli: $(B)/eng/sim_cli.o $(SIM_O) $(B)/yr_all.o $(B)/cli_yara.o $(B)/cli_yarac.o $(B)/markA.o $(B)/markZ.o
+	$(CXX) $(SAN) -no-pie -o $@ $(B)/eng/sim_cli.o $(SIM_O) $(B)/markA.o $(B)/yr_all.o $(B)/markZ.o $(B)/cli_yara.o $(B)/cli_yarac.o $(LDLIBS)
 
 $(B)/%: $(B)/eng/%.o $(SIM_O) $(B)/yr_all.o $(B)/markA.o $(B)/markZ.o
 	$(CXX) $(SAN) -no-pie -o $@ $< $(SIM_O) $(B)/markA.o $(B)/yr_all.o $(B)/markZ.o $(LDLIBS)
